@@ -8,6 +8,9 @@ import "deps.dev/util/resolve/version"
 var c19Valued = []version.AttrKey{version.Redirect, version.Features, version.DerivedFrom, version.Tags, version.Ident, version.Registries}
 var c19N = [...]string{"0", "1", "2"}
 
+// values that spell the name of an attribute key, in some case
+var c19Words = []string{"", "deleted", "Tags", "ERROR", "blocked", "redirect", "Features", "derivedfrom"}
+
 func VerifC19TextRoundTrip() {
 	var a version.AttrSet
 	if vBool("blocked") {
@@ -19,6 +22,10 @@ func VerifC19TextRoundTrip() {
 	nk := vParam("nk")
 	for i := 0; i < nk; i++ {
 		val := vBytes("val"+c19N[i], vParam("len"+c19N[i]))
+		if w := vParam("word" + c19N[i]); w != 0 {
+			val = c19Words[w]
+			vCover(true, "a value that spells an attribute key")
+		}
 		if vParam("kf_c19_text_value") == 1 {
 			// open finding: the writer neither quotes nor escapes, so values that are
 			// empty or contain white space do not survive (see known_findings.json)
